@@ -26,8 +26,8 @@ HIST_RULE = ("hist driver: seeded random histories (login, proxied request with 
 
 MANAGER_SECTIONS = ['Manager/' + n for n in ('create', 'delete', 'deleteForExternalID', 'getOrRefresh', 'refresh', 'deleteForKey', 'update', 'acquireLock', 'readerGet', 'getForTicket', 'redisRead', 'redisWrite', 'redisUpdate', 'redisDelete', 'redisMakeLock', 'memoryUpdate', 'memoryMakeLock', 'redisLockAcquire', 'redisLockRelease')] + \
     ['pkg/session/session_manager.go', 'pkg/session/session_reader.go', 'pkg/session/store_redis.go', 'pkg/session/store_memory.go', 'pkg/session/lock.go']
-HANDLER_SECTIONS = ['Handlers/' + n for n in ('getSession', 'logout', 'logoutLocal', 'logoutCallback', 'logoutFrontChannel', 'sessionInfo', 'sessionRefresh', 'sessionForwardAuth', 'handleGetSessionError', 'loginCallback', 'proxyGetSession', 'proxyHandler', 'getSessionWithValidToken', 'handleAutologin', 'proxyGetSSOServerURL', 'proxyLogin', 'proxyLoginCallback', 'proxyLogout', 'proxyLogoutCallback', 'proxyLogoutFrontChannel', 'proxyLogoutLocal', 'proxySession', 'proxySessionRefresh', 'proxySessionForwardAuth', 'proxyWildcard', 'serverLogout', 'serverLogoutFrontChannel', 'serverLogoutLocal', 'serverWildcard', 'clientLoginCallback', 'issuerIdentification', 'redeemTokens', 'stateMismatchError')] + \
-    ['pkg/handler/handler.go', 'pkg/handler/handler_sso_proxy.go', 'pkg/handler/handler_sso_server.go', 'pkg/handler/reverseproxy.go', 'pkg/openid/client/login_callback.go', 'pkg/openid/oauth2.go']
+HANDLER_SECTIONS = ['Handlers/' + n for n in ('getSession', 'logout', 'logoutLocal', 'logoutCallback', 'logoutFrontChannel', 'sessionInfo', 'sessionRefresh', 'sessionForwardAuth', 'handleGetSessionError', 'loginCallback', 'proxyGetSession', 'proxyHandler', 'getSessionWithValidToken', 'handleAutologin', 'proxyGetSSOServerURL', 'proxyLogin', 'proxyLoginCallback', 'proxyLogout', 'proxyLogoutCallback', 'proxyLogoutFrontChannel', 'proxyLogoutLocal', 'proxySession', 'proxySessionRefresh', 'proxySessionForwardAuth', 'proxyWildcard', 'serverLogout', 'serverLogoutFrontChannel', 'serverLogoutLocal', 'serverWildcard', 'clientLoginCallback', 'issuerIdentification', 'redeemTokens', 'stateMismatchError', 'getCookieOptions', 'login', 'applyLoginRateLimit', 'respondError', 'retryURI')] + \
+    ['pkg/handler/handler.go', 'pkg/handler/handler_sso_proxy.go', 'pkg/handler/handler_sso_server.go', 'pkg/handler/reverseproxy.go', 'pkg/openid/client/login_callback.go', 'pkg/openid/oauth2.go', 'pkg/handler/error.go']
 HANDLER_TIE = (" Every control-flow path through the real logout / session / reverse-proxy handlers is enumerated from a statement-by-statement translation regenerated on each run (Gen/Handlers) and "
                "the kernel decides, over ALL paths, what the handler model assumes (Proofs/GenTie/Handlers): success answers only after the lookup-error guard and the delete, cookies cleared with the request's options first, "
                "the upstream token set only when the validated lookup and the ACR gate passed, and always then.")
@@ -202,8 +202,8 @@ PROPS = {
         'assumptions': ["patterns over {literal, *, **, /}"],
     },
     'C13': {
-        'proofs': ['Ww.Proofs.C13', 'Ww.Proofs.GenTie.C13'],
-        'gen_sections': ['Dec/getAcrParam', 'Dec/getLocaleParam', 'Dec/getPromptParam', 'pkg/openid/client/login.go', 'pkg/openid/acr/acr.go'],
+        'proofs': ['Ww.Proofs.C13', 'Ww.Proofs.GenTie.C13', 'Ww.Proofs.GenTie.Login'],
+        'gen_sections': HANDLER_SECTIONS + ['Dec/getAcrParam', 'Dec/getLocaleParam', 'Dec/getPromptParam', 'pkg/openid/client/login.go', 'pkg/openid/acr/acr.go'],
         'drivers': [{'name': 'c13'}],
         'reasons': ['C13.'],
         'class_fields': {'login13': ['variant', 'ep', 'status', 'hascookie', 'parcalled', 'p_acr', 'p_locale', 'p_prompt', 'p_redirect'], 'fresh13': ['dups']},
@@ -220,7 +220,7 @@ PROPS = {
         'assumptions': ["H-RND"],
     },
     'C14': {
-        'proofs': ['Ww.Proofs.C14', 'Ww.Proofs.GenTie.C14', 'Ww.Proofs.GenTie.Handlers'],
+        'proofs': ['Ww.Proofs.C14', 'Ww.Proofs.GenTie.C14', 'Ww.Proofs.GenTie.Handlers', 'Ww.Proofs.GenTie.Login'],
         'gen_sections': HANDLER_SECTIONS + ['Cookies', 'Dec/cookieMake', 'Dec/cookieClear', 'pkg/cookie/cookie.go'],
         'drivers': [{'name': 'cook'}],
         'reasons': ['C14.'],
@@ -238,7 +238,7 @@ PROPS = {
         'assumptions': ["H-BROWSER"],
     },
     'C17': {
-        'proofs': ['Ww.Proofs.C17', 'Ww.Proofs.GenTie.C17', 'Ww.Proofs.GenTie.Handlers'],
+        'proofs': ['Ww.Proofs.C17', 'Ww.Proofs.GenTie.C17', 'Ww.Proofs.GenTie.Handlers', 'Ww.Proofs.GenTie.Login'],
         'gen_sections': HANDLER_SECTIONS + ['Consts', 'Dec/retryCondition', 'Dec/nextRetryValue', 'pkg/handler/error.go'],
         'drivers': [{'name': 'cook'}],
         'reasons': ['C17.'],
@@ -256,8 +256,8 @@ PROPS = {
         'assumptions': ["H-BROWSER"],
     },
     'C15': {
-        'proofs': ['Ww.Proofs.C15', 'Ww.Proofs.GenTie.C15'],
-        'gen_sections': ['Routes', 'pkg/router/router.go', 'pkg/router/paths/paths.go', 'Dec/isNavigationRequest', 'Dec/hasSecFetchMetadata', 'internal/http/request.go'],
+        'proofs': ['Ww.Proofs.C15', 'Ww.Proofs.GenTie.C15', 'Ww.Proofs.GenTie.Login'],
+        'gen_sections': HANDLER_SECTIONS + ['Routes', 'pkg/router/router.go', 'pkg/router/paths/paths.go', 'Dec/isNavigationRequest', 'Dec/hasSecFetchMetadata', 'internal/http/request.go'],
         'drivers': [{'name': 'c15'}, {'name': 'hist'}],
         'reasons': ['C15.'],
         'class_fields': _merge(HIST_CLASS, {'route': ['sso', 'idporten', 'method', 'impl', 'nocache'], 'guard': ['ep', 'method', 'mode', 'dest', 'status'], 'errpage': ['ep', 'status']}),
@@ -276,7 +276,7 @@ PROPS = {
         'assumptions': ["chi routes on RawPath when set, else Path"],
     },
     'C16': {
-        'proofs': ['Ww.Proofs.C16', 'Ww.Proofs.GenTie.C16'],
+        'proofs': ['Ww.Proofs.C16', 'Ww.Proofs.GenTie.C16', 'Ww.Proofs.GenTie.Login'],
         'gen_sections': HANDLER_SECTIONS + ['Routes', 'Facts', 'pkg/router/router.go'],
         'drivers': [{'name': 'c16'}, {'name': 'hist'}, {'name': 'cook'}],
         'reasons': ['C16.'],
@@ -386,8 +386,8 @@ PROPS = {
         'assumptions': ["H-AEAD", "H-RND"],
     },
     'C04': {
-        'proofs': ['Ww.Proofs.C04Lemmas', 'Ww.Proofs.C04', 'Ww.Proofs.C04Abs'],
-        'gen_sections': [],
+        'proofs': ['Ww.Proofs.C04Lemmas', 'Ww.Proofs.C04', 'Ww.Proofs.C04Abs', 'Ww.Proofs.GenTie.Login'],
+        'gen_sections': HANDLER_SECTIONS + [],
         'drivers': [{'name': 'c04'}],
         'reasons': ['C04.'],
         'class_fields': {'url04': ['ok', 'rok'], 'valid04': ['rel', 'abs', 'regex'], 'canon04': ['mode'], 'redir04': [], 'esc04': ['pathunescok', 'queryunescok'], 'whatwg04': ['expect'],
